@@ -201,8 +201,28 @@ def run_c11(case):
                         break
             elif law == "grid":
                 n = case["n"]
-                p = domain.sample_grid(n=n, params=params)
-                A = _coords(p, dom)
+                extra = case.get("prows_extra") if prow else None
+                if extra:
+                    # the raw grid call with several parameter rows (supported for a moving, otherwise fixed shape):
+                    # the block of the judged row must be the evenly spread grid of THAT row
+                    j = int(case.get("prow_index", 0)) % (len(extra) + 1)
+                    rows_all = [list(x) for x in extra[:j]] + [list(prow)] + [list(x) for x in extra[j:]]
+                    p = domain.sample_grid(n=n, params=B.params_points(pspace, rows_all))
+                    A = _coords(p, dom)
+                    stats["multi_row_calls"] = 1
+                    # rows are laid out row-major in equal blocks. (The block is n points for parallelograms and
+                    # triangles and n*k -- k copies of the grid -- for circles, whose own sample_grid already tiles
+                    # over the parameter rows: F06 of DESIGN 8.4, a count the properties do not fix for raw domain
+                    # calls; the law of every block is what C11 states.)
+                    if len(A) % len(rows_all) or len(A) < n * len(rows_all):
+                        out.append(viol("C11", "grid", "wrong-number-of-points", "", rows=len(A), n=n, k=len(rows_all)))
+                        return _rec(case, out, stats, sim)
+                    m = len(A) // len(rows_all)
+                    A = A[j * m:(j + 1) * m]
+                    n = m
+                else:
+                    p = domain.sample_grid(n=n, params=params)
+                    A = _coords(p, dom)
                 stats["points"] = len(A)
                 ref = G.uniform_sample(dom, row, 200000, rng)
                 Bp = np.concatenate([ref[v] for v, _ in G.space(dom)], axis=1)
